@@ -128,7 +128,7 @@ func (pass *DisjunctionToType) processDisjunction(visitor *Visitor, schema *ast.
 	for hint, value := range def.Hints {
 		structType.Hints[hint] = value
 	}
-	if disjunction.Branches.HasOnlyScalarOrArrayOrMap() {
+	if pass.hasOnlyScalarsOrCollections(disjunction.Branches) {
 		structType.Hints[ast.HintDisjunctionOfScalars] = disjunction
 	}
 	if disjunction.Branches.NonNullTypes().HasOnlyRefs() {
@@ -153,6 +153,37 @@ func (pass *DisjunctionToType) processDisjunction(visitor *Visitor, schema *ast.
 	}
 
 	return ref, nil
+}
+
+// hasOnlyScalarsOrCollections tells whether every branch is a scalar, a list or a map on the
+// wire. A reference to a named scalar or to an enum (`#Pos | string`) is one: a union in
+// which such a reference is mixed with scalars is a union of scalars, not a struct.
+func (pass *DisjunctionToType) hasOnlyScalarsOrCollections(branches ast.Types) bool {
+	namedScalar := false
+
+	for _, branch := range branches {
+		if branch.IsAnyOf(ast.KindScalar, ast.KindArray, ast.KindMap) {
+			continue
+		}
+
+		if !branch.IsRef() {
+			return false
+		}
+
+		resolved, found := pass.schemas.Resolve(branch)
+		if !found || !resolved.IsAnyOf(ast.KindScalar, ast.KindEnum) {
+			return false
+		}
+
+		namedScalar = true
+	}
+
+	// only references: the union is discriminated (or not) like any union of references
+	if namedScalar && branches.NonNullTypes().HasOnlyRefs() {
+		return false
+	}
+
+	return true
 }
 
 func (pass *DisjunctionToType) disjunctionTypeName(def ast.DisjunctionType) string {
